@@ -100,7 +100,7 @@ def run(ctx):
                'limits within 1e-9 dex (1e-6 memmap) of the prediction: either outcome accepted',
                'flag-9 slots carry positive finite values here (hostile values in ignored slots are C03)')
     ctx.require_events('Fitter.fit:post', 'interleave:previous-package', 'law-object:table-reassigned')
-    ctx.require_regimes('av_interior', 'av_clamped_lo', 'av_clamped_hi', 'lo_eq_hi', 'limit_violated',
+    ctx.require_regimes('limit:confidence=1', 'av_interior', 'av_clamped_lo', 'av_clamped_hi', 'lo_eq_hi', 'limit_violated',
                         'limit_satisfied', 'k0_band', 'style:v1', 'style:v2name', 'style:v2wav',
                         'memmap_on', 'memmap_off')
     n_pkg = 8 if ctx.quick else 150
@@ -200,12 +200,17 @@ def run(ctx):
             valid = gen.flags_with_fit(rng, nb, k)
             wild = rng.random() < 0.15
             flux, err = gen.photometry_for(rng, valid, pred, wild=wild)
-            # C01 quantifier: positive finite values in every used slot (confidences strictly inside (0,1); 0 and 1 are C03's); flag 9 positive too
+            # C01 quantifier: positive finite values in every used slot (confidence 0 is C03's; confidence exactly 1 is positive and
+            # finite, so it belongs here: a violated limit then gives chi^2 >= 1e30, a satisfied one adds nothing); flag 9 positive too
             nine = valid == 9
             flux[nine] = 10.0 ** np.clip(pred[nine], -200, 200)
             err[nine] = flux[nine] * 0.1
             lim = (valid == 2) | (valid == 3)
+            one = lim & (err >= 1.0)
             err[lim] = np.clip(err[lim], 1e-3, 1 - 1e-6)
+            err[one] = 1.0
+            if one.any():
+                ctx.regime('limit:confidence=1')
             _, _, w = O.transform(valid, flux, err)
             fit = w > 0
             wk = np.sum(w[fit] * k[fit]) / np.sum(w[fit])
